@@ -134,8 +134,9 @@ impl CargoTomlParser {
                     is_dotted_key = true;
                     let key_text = &content[child.byte_range()];
                     if let Some((pkg, suffix)) = key_text.split_once('.') {
-                        package_name = Some(pkg.to_string());
-                        dotted_key_suffix = Some(suffix.to_string());
+                        // TOML allows whitespace around the dot: `serde . version`
+                        package_name = Some(pkg.trim().to_string());
+                        dotted_key_suffix = Some(suffix.trim().to_string());
                     }
                 }
                 "string" => {
